@@ -29,12 +29,32 @@ Proof. exact ext_override. Qed.
 Print Assumptions C08_ext_override.
 
 (* The two orders used in the code base — TSDBStore removes the replica labels from the stored
-   and the external labels and then extends; the bucket store extends and then removes — present
+   and the external labels and then extends; the bucket store removes them from the external labels, extends, and removes them from the result — present
    the same labels. *)
 Theorem C08_two_orders_agree : forall ext drop stored m, valid_ext ext ->
   lfind (present ext drop stored) m = lfind (present_bucket ext drop stored) m.
 Proof. exact two_orders_agree. Qed.
 Print Assumptions C08_two_orders_agree.
+
+(* BucketStore.Series over any set of blocks (external labels + stored series): every returned
+   series stands for a stored series of a block whose external labels do not contradict the
+   selectors, under the bucket-order label set; with valid external labels it carries those of
+   its block that were not dropped and none of the dropped labels. *)
+Theorem C08_bucket_series_spec : forall blocks drop ms l,
+  In l (bucket_series_labels blocks drop ms) ->
+  exists ext stored sl, In (ext, stored) blocks /\ In sl stored /\ l = present_bucket ext drop sl
+    /\ ext_loop mname mmatch ms ext <> None.
+Proof. exact bucket_series_spec. Qed.
+Print Assumptions C08_bucket_series_spec.
+
+Theorem C08_bucket_ext_override : forall blocks drop ms l,
+  (forall b, In b blocks -> valid_ext (fst b)) ->
+  In l (bucket_series_labels blocks drop ms) ->
+  exists ext stored, In (ext, stored) blocks
+    /\ (forall n v, In (n, v) ext -> in_drop drop n = false -> lget l n = v)
+    /\ (forall n, in_drop drop n = true -> lhas l n = false).
+Proof. exact bucket_ext_override. Qed.
+Print Assumptions C08_bucket_ext_override.
 
 (* Frame splitting, for every frame limit (also limits smaller than one chunk or than the
    labels) and every chunk size list: the frames of a series repeat the full label set,
